@@ -74,6 +74,37 @@ type world struct {
 	outA     *Arena
 	detail   string // human readable detail of the last observation
 	extra    map[string]any
+	curLevel int       // concrete level the instance is set to (-1: the encoder's default)
+	crash    *crashLog // where to note the call about to be made (a crash inside C code kills the process)
+}
+
+// crashLog notes the call that is about to be made in the file named by VERIF_CRASHLOG, so that the
+// check can attribute a crash of the process (SIGSEGV inside a C library cannot be recovered) to
+// the behaviour / step / arguments that caused it and resume after it.
+type crashLog struct {
+	path string
+	Idx  int            `json:"index"`
+	Step int            `json:"step"`
+	Act  act            `json:"act"`
+	Lvl  int            `json:"level"`
+	Info map[string]any `json:"info"`
+	Cnt  map[string]int `json:"counters"`
+}
+
+func newCrashLog() *crashLog {
+	if p := os.Getenv("VERIF_CRASHLOG"); p != "" {
+		return &crashLog{path: p, Cnt: map[string]int{}}
+	}
+	return nil
+}
+
+func (c *crashLog) note(a act, lvl int, info map[string]any) {
+	if c == nil {
+		return
+	}
+	c.Act, c.Lvl, c.Info = a, lvl, info
+	b, _ := json.Marshal(c)
+	os.WriteFile(c.path, b, 0o644)
 }
 
 type arenas struct{ scratch, in, out *Arena }
@@ -86,7 +117,7 @@ func newWorld(cfg Config, seed uint64, ar arenas) (*world, error) {
 	if cfg.L0 >= 0 {
 		e.SetLevel(cfg.L0)
 	}
-	return &world{cfg: cfg, rng: hx.NewRNG(seed), e: e, level: "default", scratchA: ar.scratch, inA: ar.in, outA: ar.out, frames: []string{}}, nil
+	return &world{cfg: cfg, rng: hx.NewRNG(seed), e: e, level: "default", scratchA: ar.scratch, inA: ar.in, outA: ar.out, frames: []string{}, curLevel: cfg.L0}, nil
 }
 
 func (w *world) release() {
@@ -189,6 +220,7 @@ func (w *world) apply(a act) (r retObs, p string) {
 		before, callsBefore := w.w.buf.Len(), w.w.calls
 		var n int
 		var err error
+		w.crash.note(a, w.curLevel, w.extra)
 		p = hx.Catch(func() { n, err = w.e.Compress(in.Bytes, scratch, &w.w) })
 		after := w.w.buf.Len()
 		w.inputs = append(w.inputs, in)
@@ -241,6 +273,7 @@ func (w *world) apply(a act) (r retObs, p string) {
 		w.extra["frame_len"], w.extra["raw_len"] = flen, len(want)
 		var n int
 		var err error
+		w.crash.note(a, w.curLevel, w.extra)
 		p = hx.Catch(func() { n, err = w.e.Decompress(inb, out, src) })
 		r = retObs{Op: "Decompress", Err: err != nil || p != ""}
 		if p != "" {
@@ -265,11 +298,13 @@ func (w *world) apply(a act) (r retObs, p string) {
 			w.detail = "Decompress wrote outside the capacity of the output buffer"
 		}
 	case "SetLevel":
-		p = hx.Catch(func() { w.e.SetLevel(w.concreteLevel(a.L)) })
+		w.curLevel = w.concreteLevel(a.L)
+		p = hx.Catch(func() { w.e.SetLevel(w.curLevel) })
 		w.level = a.L
 		r = retObs{Op: "none", NOk: true}
 	case "Close":
 		var err error
+		w.crash.note(a, w.curLevel, w.extra)
 		p = hx.Catch(func() { err = w.e.Close() })
 		w.closed = true
 		r = retObs{Op: "none", NOk: true, Err: err != nil}
@@ -310,6 +345,17 @@ func (w *world) compare(r retObs, exp obs) (field, msg string) {
 	return "", ""
 }
 
+// Descriptor is the stable abstract signature of a failing step (matched against known findings).
+func Descriptor(binding, typ, impl string, a act, field string) map[string]any {
+	desc := map[string]any{"binding": binding, "type": typ, "impl": impl, "op": a.Name, "field": field}
+	if a.Name == "Compress" {
+		desc["data"] = a.D
+		desc["scratch"] = a.S
+		desc["scratch_nonempty"] = a.S == "lenNcapBig" || a.S == "lenNcapSmall"
+	}
+	return desc
+}
+
 func parseType(s string) encoders.Type {
 	t, err := encoders.GetTypeByString(s)
 	if err != nil {
@@ -346,6 +392,7 @@ func Replay(cfg Config, seed uint64, base, corrupt int, in io.Reader, out io.Wri
 	impl := implOf(cfg.Type)
 	n, bad, steps, drift := base, 0, 0, 0
 	comp, decomp, bytesIn := 0, 0, 0
+	cl := newCrashLog()
 	err := hx.Lines(in, func(line []byte) error {
 		var beh []step
 		if err := json.Unmarshal(line, &beh); err != nil {
@@ -366,8 +413,13 @@ func Replay(cfg Config, seed uint64, base, corrupt int, in io.Reader, out io.Wri
 			return err
 		}
 		defer w.release()
+		w.crash = cl
 		drifted := false
 		for i, st := range beh {
+			if cl != nil {
+				cl.Idx, cl.Step = n, i
+				cl.Cnt["steps"], cl.Cnt["failed"], cl.Cnt["compress"], cl.Cnt["decompress"], cl.Cnt["bytes_in"] = steps, bad, comp, decomp, bytesIn
+			}
 			r, p := w.apply(st.Act)
 			field, msg := "", ""
 			if p != "" {
@@ -385,15 +437,11 @@ func Replay(cfg Config, seed uint64, base, corrupt int, in io.Reader, out io.Wri
 			}
 			if field != "" {
 				bad++
-				desc := map[string]any{"binding": "F", "type": cfg.Name, "impl": impl, "op": st.Act.Name, "field": field}
-				if st.Act.Name == "Compress" {
-					desc["data"] = st.Act.D
-					desc["scratch"] = st.Act.S
-					desc["scratch_nonempty"] = st.Act.S == "lenNcapBig" || st.Act.S == "lenNcapSmall"
-				}
+				desc := Descriptor("F", cfg.Name, impl, st.Act, field)
 				o.Emit(map[string]any{"id": n, "ok": false, "step": i, "msg": msg, "desc": desc, "detail": w.extra,
 					"cfg": map[string]any{"type": cfg.Name, "l0": cfg.L0, "la": cfg.LA, "lb": cfg.LB, "seed": seed, "index": n},
 					"behaviour": json.RawMessage(line)})
+				o.Flush()
 				break
 			}
 			if c := ctxOf(w.e); c != "" && !w.closed && c != st.Exp.Ctx && !drifted {
